@@ -616,13 +616,27 @@ def modified_targets(ex, stmts, extra=()):
     return out
 
 
-def havoc(ex, mods):
+class RestartFunction(Exception):
+    """the proof of the function under contract has to be redone with more information (e.g. a wider element type for
+    an array that a loop re-binds)"""
+
+
+_DT_ORDER = ["bool", "int", "real", "cx"]
+
+
+def havoc(ex, mods, hint_key=None):
     fr = ex.frames[-1]
     env = fr.env
+    hints = getattr(ex.registry, "dtype_hints", {})
     for m in mods:
         if m[0] == "name":
             cur = env.get(m[1])
-            env[m[1]] = _havoc_value(ex, cur, m[1])
+            hv = _havoc_value(ex, cur, m[1])
+            if isinstance(hv, SymArr) and hint_key is not None:
+                wide = hints.get(hint_key + (m[1],))
+                if wide is not None and _DT_ORDER.index(wide) > _DT_ORDER.index(hv.dtype):
+                    hv = SymArr(hv.shape, wide, name=m[1])
+            env[m[1]] = hv
         elif m[0] == "arr":
             a = m[1]
             a.re = z3.Const(V.fresh_name("hv"), a.re.sort())
@@ -685,7 +699,9 @@ def invariant_for(ex, st, rng, spec, ordinal, elem_fn=None):
         ex.oblige("loop-inv-init:%s:%d" % (tag, k), f, "loop-invariant", st.lineno)
     mods = modified_targets(ex, st.body, spec.get("modifies", ()))
     mods = [m for m in mods if not (m[0] == "name" and m[1] == tname)]
-    havoc(ex, mods)
+    hint_key = (fr.finfo.qualname, ordinal)
+    havoc(ex, mods, hint_key)
+    havocked_dtypes = {m[1]: env[m[1]].dtype for m in mods if m[0] == "name" and isinstance(env.get(m[1]), SymArr)}
     i = fresh("it", z3.IntSort())
     ex.assume(compare("<=", lo, i))
     for f in inv_at(i):
@@ -712,6 +728,15 @@ def invariant_for(ex, st, rng, spec, ordinal, elem_fn=None):
         pass
     except BreakSignal:
         return
+    # an array name re-bound by the body to a wider element type than the one assumed for the arbitrary iteration
+    # (e.g. integer initial values turned into reals by the first step): redo the proof with the wider type
+    for nm_, dt_ in havocked_dtypes.items():
+        cur_ = env.get(nm_)
+        if isinstance(cur_, SymArr) and _DT_ORDER.index(cur_.dtype) > _DT_ORDER.index(dt_):
+            if not hasattr(ex.registry, "dtype_hints"):
+                ex.registry.dtype_hints = {}
+            ex.registry.dtype_hints[hint_key + (nm_,)] = cur_.dtype
+            raise RestartFunction("array %s becomes %s inside loop %s#%d" % (nm_, cur_.dtype, fr.finfo.name, ordinal))
     lets = {"_i": i}
     for nm, expr in (spec.get("let_post") or {}).items():
         # ghost values computed once after the body (e.g. the result of a callee contract on the pre-state) and shared
